@@ -157,7 +157,8 @@ CTYPES = [None, None, 'application/octet-stream', 'text/plain', 'application/jso
           'Multipart/Mixed; boundary=0']
 
 
-def run_real(mode, inp, cl, buf, max_body, schedule=None, rng=None, kind='cl', expect=b'', short_p=0.5, ctype=None, plain=None, _retry=0, fault=False, via=None):
+def run_real(mode, inp, cl, buf, max_body, schedule=None, rng=None, kind='cl', expect=b'', short_p=0.5, ctype=None, plain=None, _retry=0, fault=False, via=None,
+             in_thread=False):
     """plain = k: wsgi.input is an ordinary io.BytesIO positioned at offset k of (k junk bytes + inp) -- what a test client, a
     sub-request or a buffering outer application hands over; its reads cannot be logged (no mechanism conformance for it)."""
     app, res = body_app(buf, max_body)
@@ -191,8 +192,26 @@ def run_real(mode, inp, cl, buf, max_body, schedule=None, rng=None, kind='cl', e
         # injected fault: no temporary file can be created while this request is served (temp directory gone / read-only image)
         _tf.tempdir = '/nonexistent-directory-for-ombott-verif'
     try:
-        with core.time_limit(10):
-            status, line, headers, body, nsr = call_app(app, env)
+        if in_thread:
+            # servers call the application from worker threads, not from the thread that imported the framework
+            import threading
+            box = {}
+
+            def work():
+                try:
+                    box['r'] = call_app(app, env)
+                except Exception as e:   # noqa
+                    box['e'] = e
+            th = threading.Thread(target=work, daemon=True)
+            th.start()
+            th.join(10)
+            if th.is_alive() or 'e' in box:
+                status = 0
+            else:
+                status, line, headers, body, nsr = box['r']
+        else:
+            with core.time_limit(10):
+                status, line, headers, body, nsr = call_app(app, env)
     except core.Hang:
         status = 0      # reported as outcome 'status0' (neither accepted nor a client error)
     finally:
@@ -207,7 +226,7 @@ def run_real(mode, inp, cl, buf, max_body, schedule=None, rng=None, kind='cl', e
                 import time as _t
                 _t.sleep(2.0)
                 return run_real(mode, inp, cl, buf, max_body, schedule=schedule, rng=None, kind=kind, expect=expect, short_p=short_p,
-                                ctype=ctype, plain=plain, _retry=_retry + 1, via=via)
+                                ctype=ctype, plain=plain, _retry=_retry + 1, via=via, in_thread=in_thread)
             raise core.MachineryError('environment failure while serving a request: %s' % errs.strip().splitlines()[-1:])
     phase = {200: 'done', 400: 'e400', 413: 'e413'}.get(status, 'status%d' % status)
     if phase == 'done' and 'out' not in res:
